@@ -18,7 +18,7 @@ func TestMain(m *testing.M) { kit.Main(m) }
 
 const rule = "providers with custom / default / empty-custom names (several per type) x consumers whose single-valued fields (*T, interface, any) request a name that is present+compatible, absent, present+incompatible or a default package/type name, required or optional, pre-filled with a sentinel, next to other fields; plus duplicate-name registration attempts; oracle: compatible -> exactly that component, otherwise error iff required and sentinel untouched when optional; non-trivial = the named point has >=2 providers assignable to its type, or takes the absent / incompatible branch; distinct by scenario shape"
 
-var kinds = []int{0, 0, 1, 2, 3, 5, 7, 8}
+var kinds = []int{0, 0, 1, 2, 3, 5, 7, 8, 11, 11, 11, 12}
 var names = []string{"n1", "n2", "n3", "n4", "n5"}
 
 const zooPkg = "verif/harness/zoo/"
@@ -128,8 +128,12 @@ func TestByName(t *testing.T) {
 		}
 		labels := []string{"verdict/" + verdict.String()}
 		nt := false
-		for k := range s.Cons {
-			c := in.Comp(s.ConsumerIndex(k))
+		must, _ := g.Created()
+		for id := range in.Comps {
+			c := in.Comp(id)
+			if !must[c] {
+				continue
+			}
 			for _, p := range g.Points[c] {
 				if p.Val == "" {
 					continue
@@ -168,7 +172,10 @@ func TestByName(t *testing.T) {
 						t.Fatalf("C07: %v must hold exactly the component named %q, holds %T %v\nscenario: %s", p, p.Val, gotObj, gotObj, desc)
 					}
 				} else {
-					want := sent[c.Ptr][p.Path[0]]
+					var want any // providers' own fields start out nil
+					if m := sent[c.Ptr]; m != nil {
+						want = m[p.Path[0]]
+					}
 					if gotObj != want {
 						t.Fatalf("C07: optional point %v names no compatible component and must stay untouched (sentinel %p), holds %T %v\nscenario: %s", p, want, gotObj, gotObj, desc)
 					}
@@ -183,8 +190,9 @@ func TestByName(t *testing.T) {
 func TestDuplicateNames(t *testing.T) {
 	kit.Rec.Rule(rule)
 	rapid.Check(t, func(t *rapid.T) {
-		k1 := rapid.SampledFrom(kinds).Draw(t, "k1")
-		k2 := rapid.SampledFrom(kinds).Draw(t, "k2")
+		dupKinds := []int{0, 1, 2, 3, 5, 7, 8, 11} // no kinds with required points of their own
+		k1 := rapid.SampledFrom(dupKinds).Draw(t, "k1")
+		k2 := rapid.SampledFrom(dupKinds).Draw(t, "k2")
 		mode := rapid.IntRange(0, 2).Draw(t, "mode")
 		var a1, a2 string
 		switch mode {
